@@ -29,21 +29,31 @@ type h2Seen struct {
 
 func newH2Client(addr string) *req.Client {
 	c := req.C().DisableAutoDecode().SetTimeout(25 * time.Second).EnableH2C().EnableForceHTTP2()
-	c.SetDialTLS(func(ctx context.Context, network, _ string) (net.Conn, error) {
+	dial := func(ctx context.Context, network, _ string) (net.Conn, error) {
 		var d net.Dialer
 		return d.DialContext(ctx, network, addr)
-	})
+	}
+	// h2c (http:// with prior knowledge) is dialled through the plain dial hook since /repo
+	// ecf6c40; before that through the TLS hook
+	c.SetDial(dial)
+	c.SetDialTLS(dial)
 	return c
 }
 
 // h2Exchange: request 1 (scripted), read to the end, then request 2 on the same client.
-func h2Exchange(srv *wire.H2Server, sc *wire.H2Script, sent []byte, auto bool) (o h2Seen) {
+// waitGone: the script ends the connection - before the follow-up, wait (bounded) until the
+// peer has seen the client let go of that connection.  When the body read fails for a reason
+// other than the end of the connection (e.g. more DATA than declared) the client may not
+// have noticed the end yet, and a request written to the dying connection would be lost: that
+// would be a second fault, not the reuse of a connection known to be broken.
+func h2Exchange(srv *wire.H2Server, sc *wire.H2Script, sent []byte, auto, waitGone bool) (o h2Seen) {
 	o.Mode = "manual"
 	if auto {
 		o.Mode = "auto"
 	}
 	id := nextID()
 	sc.Follow = []byte("follow-up body of " + id)
+	sc.ConnGone = make(chan struct{})
 	srv.Register(id, sc)
 	defer srv.Unregister(id)
 	c := newH2Client(srv.Addr())
@@ -80,6 +90,12 @@ func h2Exchange(srv *wire.H2Server, sc *wire.H2Script, sent []byte, auto bool) (
 		}
 		o.DLen = len(data)
 		o.PrefixOK = len(data) <= len(sent) && bytes.Equal(data, sent[:len(data)])
+		if waitGone {
+			select {
+			case <-sc.ConnGone:
+			case <-time.After(5 * time.Second):
+			}
+		}
 		resp2, err2 := c.R().Get("http://h2.test/x/" + id + "/2")
 		switch {
 		case err2 != nil:
@@ -217,7 +233,7 @@ func runH2(r *hk.Run, rng *hk.Rand) {
 			evs = []string{"H2ConnEnd"}
 		}
 		auto := i%4 == 3
-		o := h2Exchange(srv, sc, sent, auto)
+		o := h2Exchange(srv, sc, sent, auto, term == "goaway-close" || term == "close" || term == "cutframe")
 		sig := fmt.Sprintf("h2:%s:cl-%s:%s", term, clMode, o.Mode)
 		r.Count("h2.term=" + term)
 		r.Count("h2.cl=" + clMode)
